@@ -72,8 +72,7 @@ partial def why (X : Compile.TP) (d : Bool) (n : GoNode) : Option String :=
   match n with
   | .empty => none
   | .bare t =>
-    if t == opUpdateBumpalong then some "UpdateBumpalong"
-    else if t == opECMABoundary || t == opNonECMABoundary then some "ECMABoundary"
+    if t == opECMABoundary || t == opNonECMABoundary then some "ECMABoundary"
     else if (Compile.bareToPat X t).isNone then some s!"node:{typeName t}" else none
   | .char t rtl _ ch =>
     (dir rtl t).orElse fun _ =>
@@ -82,7 +81,7 @@ partial def why (X : Compile.TP) (d : Bool) (n : GoNode) : Option String :=
     (dir rtl opSet).orElse fun _ =>
       if ci then some "ci:Set" else if (X.rd s).isNone then some "set-unreadable" else none
   | .multi rtl ci _ => (dir rtl opMulti).orElse fun _ => if ci then some "ci:Multi" else none
-  | .ref rtl _ m => (dir rtl opRef).orElse fun _ => if m < 0 then some "node:Ref" else none
+  | .ref rtl ci m => (dir rtl opRef).orElse fun _ => if m < 0 then some "node:Ref" else if ci then some "ci:Ref" else none
   | .charloop t rtl _ ch _ _ =>
     (dir rtl t).orElse fun _ =>
       if ch < 0 || !(charloopTypes.contains t) then some s!"node:{typeName t}" else none
@@ -110,15 +109,23 @@ partial def why (X : Compile.TP) (d : Bool) (n : GoNode) : Option String :=
 def reason (X : Compile.TP) (ti : TreeInfo) (root : GoNode) : String :=
   match root with
   | .capture 0 (-1) body =>
-    if ti.rtl then "rtl"
-    else match why X false body with
+    match why X ti.rtl body with
       | some r => r
-      | none => if mapCapnum (mainCfg ti) 0 != 0 then "slot0" else "unknown"
+      | none =>
+        if mapCapnum (mainCfg ti) 0 != 0 then "slot0"
+        else if (writerCaps ti).2.isSome && decide (6 ≤ Compile.tier root) then "caps-map" else "unknown"
   | _ => "root"
 
-/-- the smallest `k ∈ {1,2,3,4}` with `Compile.InFrag k` -/
+/-- the smallest `k ∈ {1,…,8}` with `Compile.InFrag k` (tier 9, ECMAScript boundaries, has no pattern in the
+    specification: `toPat` fails there) -/
 def cover (X : Compile.TP) (ti : TreeInfo) (root : GoNode) : Option Nat :=
-  [1, 2, 3, 4].find? (fun k => Compile.InFrag k X ti root)
+  [1, 2, 3, 4, 5, 6, 7, 8].find? (fun k => Compile.InFrag k X ti root)
+
+/-- the name of the theorem `Props.C01.compile_correct_<name>` whose fragment is tier `k` -/
+def tierName (k : Nat) : String :=
+  match k with
+  | 4 => "T4a" | 5 => "T4b" | 6 => "T4c" | 7 => "T4d" | 8 => "T4e"
+  | k => s!"T{k}"
 
 /-! ### both sides of the statement on one input -/
 
@@ -143,12 +150,14 @@ structure Side where
   pat : Pat
   strict : Bool
   sl : Nat → Nat
+  /-- the tree option RightToLeft: the direction of the attempt -/
+  rtl : Bool
 
 def mkSide (ti : TreeInfo) (root : GoNode) (names : List (List Nat)) (pat : Pat) (strict : Bool) : Side :=
   { prog := Writer.emit ti root,
     cls := ((Writer.codeFromTree (Writer.mainCfg ti) root).2.sets.map (Compile.readSet names)).toArray,
     pat := pat, strict := strict,
-    sl := fun g => (Writer.mapCapnum (Writer.mainCfg ti) (g : Int)).toNat }
+    sl := fun g => (Writer.mapCapnum (Writer.mainCfg ti) (g : Int)).toNat, rtl := ti.rtl }
 
 /-- one attempt at `i` (`\G` origin `i`): `(ok none)` / `(ok idx len)` when the interpreter model on the
     written program and the specification agree, `(diff what)` when not, `(fuel)` when the fuel ran out -/
@@ -168,7 +177,7 @@ def attemptAt (S : Side) (inp : Input) (fuel : Nat) (i : Nat) : Sexp :=
     | .fault f => mk "diff" [.atom ("fault-" ++ f.name)]
     | .fuel _ => mk "fuel" []
     | .done s =>
-      let r := Spec.attemptRun se S.pat false i      -- = Spec.attempt (Lemmas.Backtrack.attemptRun_eq)
+      let r := Spec.attemptRun se S.pat S.rtl i      -- = Spec.attempt (Lemmas.Backtrack.attemptRun_eq)
       if VM.matched s != r.isSome then mk "diff" [.atom "matched"]
       else match r with
         | none => mk "ok" [.atom "none"]
@@ -199,13 +208,13 @@ def handleCompile (args : List Sexp) : String :=
       let X : Compile.TP := { strict := strict, rd := Compile.readSet names }
       let cov := Cc.cover X ti root
       let cls := match cov with
-        | some k => mk "covered" [.atom s!"T{k}"]
+        | some k => mk "covered" [.atom (Cc.tierName k)]
         | none => mk "notcovered" [.atom (Cc.reason X ti root)]
       let pat := Compile.toPatRoot X ti.rtl root
       let patS := match pat with
         | some p => Cc.ofPat p
         | none => .atom "none"
-      let runs : List Sexp := match cov, Compile.toPatRoot X false root with
+      let runs : List Sexp := match cov, Compile.toPatRoot X ti.rtl root with
         | some _, some p =>
           let S := Cc.mkSide ti root names p strict
           inputs.map fun e =>
